@@ -187,6 +187,14 @@ def nested_programs(tier, hi):
               ("slice", ("sort", ("sort", X, TOT), TOT3), 1, 2), ("sort", ("sort", X, ((A, True),)), ((B, False), (V, True))),
               ("slice", ("sort", ("sort", X, ((A, True),)), ((B, False), (V, True))), 0, 1),
               ("slice", ("sort", ("sort", ("sort", X, ((V, True),)), ((B, True),)), ((A, False),)), 0, 1)]
+    # a sorted and sliced chain with one more operation on top (each must see exactly the window of the sorted union)
+    for win in ((0, 1), (1, 2), (0, 2)):
+        sl = ("slice", ("sort", CH, TOT), *win)
+        progs += [("sel", sl, K), ("calc", sl, "d", ("neg", A)), ("dedup", sl), ("proj", sl, ("a", "b")), ("sort", sl, TOT3)]
+    # a calculation that reuses the tag of a hidden column other than the sort's
+    progs += [("calc", ("proj", ("sort", X, ((B, True),)), ("a",)), "v", ("neg", A)),
+              ("slice", ("calc", ("proj", ("sort", X, ((B, True), (A, True), (V, True))), ("a", "b")), "v", ("neg", A)), 0, 1),
+              ("calc", ("proj", ("sort", ("sel", X, K), ((V, False),)), ("a",)), "b", ("add", A, A))]
     out = [(p, {"$k": [None, None]} if "$k" in repr(p) else {}, []) for p in progs]
     W2 = ("slice", ("sort", X, TOT), "$s1", "$e1")
     for top in (TOT2, TOT3):
